@@ -1,6 +1,7 @@
 package main
 
 import (
+	"reflect"
 	"encoding/hex"
 	"errors"
 	"strconv"
@@ -110,3 +111,43 @@ func utoa(v uint64) string { return strconv.FormatUint(v, 10) }
 func itoa(v int64) string  { return strconv.FormatInt(v, 10) }
 
 func fields(s string) []string { return strings.Split(s, " ") }
+
+// integer pointer fields of the claims structs are written and read through reflection,
+// so that the harness still builds (and can exhibit the failing input) when a field's
+// integer type is changed in the library
+func setIntPtrField(obj interface{}, name string, has bool, v int64) {
+	f := reflect.ValueOf(obj).Elem().FieldByName(name)
+	if !f.IsValid() {
+		panic("no field " + name)
+	}
+	if !has {
+		f.Set(reflect.Zero(f.Type()))
+		return
+	}
+	p := reflect.New(f.Type().Elem())
+	switch p.Elem().Kind() {
+	case reflect.Int, reflect.Int8, reflect.Int16, reflect.Int32, reflect.Int64:
+		p.Elem().SetInt(v)
+	case reflect.Uint, reflect.Uint8, reflect.Uint16, reflect.Uint32, reflect.Uint64:
+		p.Elem().SetUint(uint64(v))
+	default:
+		panic("field " + name + " is not an integer pointer")
+	}
+	f.Set(p)
+}
+
+func intPtrFieldTok(obj interface{}, name string) string {
+	f := reflect.ValueOf(obj).Elem().FieldByName(name)
+	if !f.IsValid() {
+		panic("no field " + name)
+	}
+	if f.IsNil() {
+		return "_"
+	}
+	switch f.Elem().Kind() {
+	case reflect.Int, reflect.Int8, reflect.Int16, reflect.Int32, reflect.Int64:
+		return itoa(f.Elem().Int())
+	default:
+		return utoa(f.Elem().Uint())
+	}
+}
